@@ -67,6 +67,7 @@ def run(res, tier):
             kind = 'unstable'; rho = float(rng.choice([0.1, 0.3]))
         try:
             info, desc, X = one_fit(rng, fam, kind, ns, nu, rho, max_iter, trunc, solver_iters)
+            common.note_case('fit', desc.get('estimator'), X)
             desc['solver_max_iterations'] = solver_iters
         except Exception as e:  # noqa
             dist['fit_error'] = dist.get('fit_error', 0) + 1
